@@ -4,6 +4,7 @@ import Rv.Oracle.Event
 import Rv.Oracle.Auth
 import Rv.Oracle.Proxy
 import Rv.Oracle.Certs
+import Rv.Oracle.Config
 /-
   Rv.Oracle — dispatch of op lines to the stateless and stateful model drivers.
 -/
@@ -15,6 +16,7 @@ structure OState where
   au : Auth.AState := {}
   px : Proxy.PState := {}
   ce : Certs.CState := {}
+  cf : Config.CfState := {}
 
 def splitArrow : List String → List String → (List String × String)
   | [], acc => (acc.reverse, "")
@@ -39,6 +41,9 @@ def step (os : OState) (line : String) : OState × String :=
   | "ce" :: _ =>
     let (c, m, v) := Certs.step os.ce fs obs
     ({ os with ce := c }, m ++ "\t" ++ v)
+  | "cf" :: _ =>
+    let (c, m, v) := Config.step os.cf fs obs
+    ({ os with cf := c }, m ++ "\t" ++ v)
   | "ls" :: _ =>
     -- C14: the theorem says every schedule completes; the model observation is the constant "completed"
     (os, "completed\t" ++ (if obs = "completed" then "ok" else if obs.startsWith "HANG" then "bad:operation-does-not-complete" else "bad:" ++ obs))
